@@ -4,10 +4,11 @@ every crash image (a) evaluates the crash-safety specification on what the REAL 
 (b) loads the image bytes into the model and compares the model's recovery with the real one.
 -/
 import Driver.Seq
+import Driver.Img
 import Sth.Model.Recover
 
 namespace Driver.Crash
-open Sth Driver
+open Sth Driver Driver.Img
 
 structure St where
   seq : Driver.Seq.St := {}
@@ -24,81 +25,6 @@ structure St where
   taint11 : Bool := false
   imgTaint11 : Bool := false
 deriving Repr
-
-/-- extract an unsigned number following `"Field":` in JSON bytes -/
-def jsonNum (data : Bytes) (field : String) : Option Nat :=
-  let pat := strBytes ("\"" ++ field ++ "\":")
-  let rec find (fuel : Nat) (d : Bytes) : Option Bytes :=
-    match fuel with
-    | 0 => none
-    | fuel + 1 =>
-      if d.take pat.length = pat then some (d.drop pat.length)
-      else match d with
-        | [] => none
-        | _ :: t => find fuel t
-  match find (data.length + 1) data with
-  | none => none
-  | some rest =>
-    let digits := rest.takeWhile (fun c => 48 ≤ c ∧ c ≤ 57)
-    if digits.isEmpty then none else some (digits.foldl (fun acc c => acc * 10 + (c - 48)) 0)
-
-def jsonClosed (data : Bytes) : Bool := data.getLast? = some 125 && data.head? = some 123
-
-inductive Hdr (α : Type) where
-  | none | bad | ok (h : α)
-
-def parseIdxHdr (data : Bytes) : Hdr IdxHeader :=
-  if !jsonClosed data then .bad else
-  match jsonNum data "BucketsBits", jsonNum data "MaxFileSize", jsonNum data "FirstFile", jsonNum data "PrimaryFileSize" with
-  | some b, some m, some f, some p => .ok ⟨b, m, f, p⟩
-  | _, _, _, _ => .bad
-
-def parsePriHdr (data : Bytes) : Hdr PriHeader :=
-  if !jsonClosed data then .bad else
-  match jsonNum data "MaxFileSize", jsonNum data "FirstFile" with
-  | some m, some f => .ok ⟨m, f⟩
-  | _, _ => .bad
-
-structure Img where
-  disk : Disk := {}
-  badIdxHdr : Bool := false
-  badPriHdr : Bool := false
-  extra : List String := []
-
-def parseSnap (v : String) : Snap :=
-  match (v.drop 1).toString.splitOn "," with
-  | [] => ⟨0, []⟩
-  | sz :: rest =>
-    ⟨sz.toNat?.getD 0, rest.foldl (fun acc kv => match kv.splitOn ":" with
-      | [b, p] => acc.set (b.toNat?.getD 0) (p.toNat?.getD 0)
-      | _ => acc) []⟩
-
-def parseImg (s : String) : Img :=
-  (s.splitOn ";").foldl (fun (im : Img) part =>
-    match part.splitOn "=" with
-    | [name, v] =>
-      let data := (fromHex v).getD []
-      if name = "index.info" then
-        match parseIdxHdr data with
-        | .ok h => { im with disk := { im.disk with ihdr := some h } }
-        | _ => { im with badIdxHdr := true }
-      else if name = "data.info" then
-        match parsePriHdr data with
-        | .ok h => { im with disk := { im.disk with phdr := some h } }
-        | _ => { im with badPriHdr := true }
-      else if name = "index.buckets" then { im with disk := { im.disk with snap := some (parseSnap v) } }
-      else if name = "index.free" then { im with disk := { im.disk with free := some data } }
-      else if name = "index.free.gc" then { im with disk := { im.disk with freeGc := some data } }
-      else if name.startsWith "index." then
-        match (name.drop 6).toString.toNat? with
-        | some n => { im with disk := { im.disk with ifiles := im.disk.ifiles.set n data } }
-        | none => { im with extra := name :: im.extra }
-      else if name.startsWith "data." then
-        match (name.drop 5).toString.toNat? with
-        | some n => { im with disk := { im.disk with pfiles := im.disk.pfiles.set n data } }
-        | none => { im with extra := name :: im.extra }
-      else { im with extra := name :: im.extra }
-    | _ => im) {}
 
 def showRead (r : Driver.Seq.St → Bytes → (Mem × GetRes)) : Unit := ()
 
